@@ -1,6 +1,8 @@
 mod c06;
 mod c07;
 mod c08;
+mod c1017;
+mod eval;
 mod c15;
 mod c19;
 mod c20;
@@ -28,6 +30,8 @@ fn with_campaign(prop: &str, f: &mut dyn FnMut(&dyn Dispatch) -> i32) -> i32 {
         "C06" => f(&c06::C06),
         "C07" => f(&c07::C07),
         "C08" => f(&c08::C08),
+        "C10" => f(&c1017::C10),
+        "C17" => f(&c1017::C17),
         "C15" => f(&c15::C15),
         "C19" => f(&c19::C19),
         "C20" => f(&c20::C20),
